@@ -20,3 +20,15 @@ CLAIMS["C20"] = ("exploration",
     "Hypothesis-generated (text, appended char, font, two sizes, dpi, unsupported font/unit) cases plus an exhaustive single-character x font sweep; algebraic and metamorphic relations from the statement with stated tolerances. " + _EXPL,
     "Frozen font-number -> name table; tolerances 1e-9 relative (one float multiplication) and 1 % (statement).",
     "property-based testing: Hypothesis inputs, algebraic/metamorphic relations as oracle")
+CLAIMS["C12"] = ("exploration",
+    "Exhaustive over the 657 colours (as text and background colour in body matrices and on text components of single-table, multi-section and figure documents) and the 10 fonts on every component, plus Hypothesis-generated documents with random palettes and attribute shapes; oracle resolves every parsed \\cf \\cb \\chcbpat \\brdrcf \\f through the parsed \\colortbl / \\fonttbl and compares with frozen reference tables per sentinel-tagged element. " + _EXPL,
+    _READER + " Frozen colour and font tables (data/*.json, sha256-pinned).",
+    "property-based testing: exhaustive colour/font enumeration + Hypothesis palettes, reference-table oracle on independently parsed output")
+CLAIMS["C14"] = ("exploration",
+    "Model-based generation of call histories (construct with/without shared component objects, encode, failing encode, encode twice; indices modulo the live pool) over 14 document archetypes, exhaustive for histories of length <=2 over archetype x sharing menu; differential oracle against a freshly spawned interpreter encoding an equal-valued unshared document, plus repeat-call equality and DataFrame immutability. " + _EXPL,
+    "Equal-valued = same constructor arguments; the baseline interpreter is spawned per distinct recipe and cached for the run.",
+    "property-based testing over histories: Hypothesis op-sequence strategy + exhaustive short histories, differential oracle vs fresh interpreter")
+CLAIMS["C15"] = ("exploration",
+    "The harness owns the schedule: a baton scheduler driven by sys.settrace call events gives deterministic interleavings; every single-preemption schedule at every rtflite call boundary is enumerated for the listed document pairs (thorough: all ordered pairs and line-level preemption inside the modules holding global state), Hypothesis draws 2-3 preemption / 3-thread schedules; oracle = each thread's string equals the sequential result. " + _EXPL,
+    "Preemption granularity is rtflite function calls (lines in color_service.py / registry.py in thorough); C code in polars/pydantic is atomic under this scheduler.",
+    "schedule enumeration + Hypothesis-generated schedules under a harness-owned deterministic scheduler, differential oracle vs sequential run")
